@@ -56,6 +56,11 @@ def cfg(g):
     return Grammar(prods, start, [v.value for v in g.variables], [t.value for t in g.terminals])
 
 
+def _v(x):
+    """value of a library object; a PDA without start state/stack symbol carries None in derived transitions"""
+    return x.value if x is not None else None
+
+
 def pda(p):
     """PDA -> ref PDA over values (states, start state, final states, to_dict(); the start stack symbol has no
     public accessor: read from the object, falling back to the networkx export)"""
@@ -64,8 +69,8 @@ def pda(p):
     trans = []
     for (q, a, X), outs in p.to_dict().items():
         for (r, g) in outs:
-            trans.append((q.value, rp.EPS if isinstance(a, PEps) else a.value, X.value, r.value,
-                          tuple(y.value for y in g if not isinstance(y, PEps))))
+            trans.append((_v(q), rp.EPS if isinstance(a, PEps) else _v(a), _v(X), _v(r),
+                          tuple(_v(y) for y in g if not isinstance(y, PEps))))
     _missing = object()
     z = getattr(p, "_start_stack_symbol", _missing)
     if z is _missing:
